@@ -53,12 +53,18 @@ AllAEs == {
   [text |-> "gzip;q=0",            el |-> <<El("gzip", 0, FALSE)>>],
   [text |-> "br, gzip;q=0",        el |-> <<El("br", 10, TRUE), El("gzip", 0, FALSE)>>],
   [text |-> "gzip;q=0.5, zstd",    el |-> <<El("gzip", 5, FALSE), El("zstd", 10, TRUE)>>],
+  [text |-> "gzip;q=0, *",         el |-> <<El("gzip", 0, FALSE), El("*", 10, TRUE)>>],
+  [text |-> "*, gzip;q=0",         el |-> <<El("*", 10, TRUE), El("gzip", 0, FALSE)>>],
+  [text |-> "gzip, br;q=0",        el |-> <<El("gzip", 10, TRUE), El("br", 0, FALSE)>>],
   [text |-> "x-gzip",              el |-> <<El("x-gzip", 10, TRUE)>>] }
 AEs == {a \in AllAEs : a.text \in AETexts}
 
 Names(a) == {a.el[i].n : i \in 1..Len(a.el)}
 \* declarative: did the client offer gzip?
-OffersGzip(a) == \E i \in 1..Len(a.el) : a.el[i].n \in {"gzip", "x-gzip", "*"} /\ a.el[i].q > 0
+\* (an element naming gzip decides; only without one does a "*" element offer it)
+NamesGzip(a) == {i \in 1..Len(a.el) : a.el[i].n \in {"gzip", "x-gzip"}}
+OffersGzip(a) == IF NamesGzip(a) # {} THEN \E i \in NamesGzip(a) : a.el[i].q > 0
+                 ELSE \E i \in 1..Len(a.el) : a.el[i].n = "*" /\ a.el[i].q > 0
 \* the middleware's own test
 AcceptsGzip(a) == IF Repaired THEN \E i \in 1..Len(a.el) : a.el[i].n \in {"gzip", "x-gzip"} /\ a.el[i].q > 0
                   ELSE \E i \in 1..Len(a.el) : a.el[i].n \in {"gzip", "x-gzip"}     \* strings.Contains(.., "gzip")
@@ -112,7 +118,7 @@ Init ==
     /\ \/ \* family A: the request filters - every block x every path, simple inner responses
           /\ cfg \in {Cfg(e, nt, lv, ml) : e \in {"default", "txt", "star"}, nt \in BOOLEAN, lv \in LevelsA, ml \in MinLens}
           /\ path \in PathsAll
-          /\ ae \in {a \in AEs : a.text \in {"absent", "gzip", "gzip;q=0", "zstd, gzip"}}
+          /\ ae \in {a \in AEs : a.text \in {"absent", "gzip", "gzip;q=0", "zstd, gzip", "gzip, br;q=0", "gzip;q=0, *"}}
           /\ inner \in SimpleProbes
        \/ \* family B: the response side - every inner response x every Accept-Encoding
           /\ cfg \in {Cfg("default", FALSE, lv, ml) : lv \in LevelsB, ml \in MinLens}
